@@ -96,3 +96,244 @@ def build_file(records, max_pr_len=65535, rec_num=False, file_num=None, check=Fa
             out += struct.pack(fmt, 1, prev, start + TIF_LEN)
             prev = start
     return bytes(out), lay
+
+
+# =================================================================================================
+# Layer 2: representation codes (LIS-79 Appendix B) - exact encoders/decoders for representable values
+# =================================================================================================
+from fractions import Fraction
+
+
+def _frexp_exact(v):
+    """v (Fraction, non-zero) = f * 2**e with 1/2 <= |f| < 1."""
+    v = Fraction(v)
+    e = 0
+    a = abs(v)
+    while a >= 1:
+        a /= 2
+        e += 1
+    while a < Fraction(1, 2):
+        a *= 2
+        e -= 1
+    return (a if v > 0 else -a), e
+
+
+def enc68(v):
+    """32 bit floating point: S EEEEEEEE M(23).  Positive: M/2^23 * 2^(E-128).  Negative numbers hold the one's
+    complement of the exponent and the two's complement of the fraction (153 = 0x444C8000, -153 = 0xBBB38000)."""
+    v = Fraction(v)
+    if v == 0:
+        return struct.pack('>I', 0x40000000)      # zero: exponent 128, fraction 0 (the canonical LIS zero)
+    f, e = _frexp_exact(v)
+    m = abs(f) * (1 << 23)
+    assert m.denominator == 1 and 0 <= e + 128 <= 255, 'not representable in code 68: %r' % v
+    m = int(m)
+    E = e + 128
+    if v > 0:
+        w = (E << 23) | m
+    else:
+        w = 0x80000000 | ((255 - E) << 23) | (((1 << 23) - m) & 0x7FFFFF)
+    return struct.pack('>I', w)
+
+
+def enc68_nearest(v):
+    """Nearest code 68 word for a positive or negative rational (round half to even on the 23 bit fraction)."""
+    v = Fraction(v)
+    if v == 0:
+        return enc68(0)
+    f, e = _frexp_exact(v)
+    m = abs(f) * (1 << 23)
+    mi = int(m)
+    r = m - mi
+    if r > Fraction(1, 2) or (r == Fraction(1, 2) and mi % 2):
+        mi += 1
+    q = Fraction(mi, 1 << 23) * Fraction(2) ** e
+    return enc68(q if v > 0 else -q)
+
+
+def dec68(by):
+    w = struct.unpack('>I', by)[0]
+    E = (w >> 23) & 0xFF
+    m = w & 0x7FFFFF
+    if w & 0x80000000:
+        return Fraction(m - (1 << 23), 1 << 23) * Fraction(2) ** (127 - E)
+    return Fraction(m, 1 << 23) * Fraction(2) ** (E - 128)
+
+
+def enc49(v):
+    """16 bit floating point: 12 bit two's complement fraction, 4 bit exponent (153 = 0x4C88)."""
+    v = Fraction(v)
+    for E in range(16):
+        m12 = v / (Fraction(2) ** E) * (1 << 11)
+        if m12.denominator == 1 and -2048 <= m12 <= 2047:
+            return struct.pack('>H', ((int(m12) & 0xFFF) << 4) | E)
+    raise AssertionError('not representable in code 49: %r' % v)
+
+
+def dec49(by):
+    w = struct.unpack('>H', by)[0]
+    m = w >> 4
+    if m & 0x800:
+        m -= 0x1000
+    return Fraction(m, 1 << 11) * Fraction(2) ** (w & 0xF)
+
+
+def enc50(v):
+    """32 bit low resolution floating point: 16 bit two's complement exponent, 16 bit two's complement fraction
+    (153 = 0x00084C80)."""
+    v = Fraction(v)
+    if v == 0:
+        return struct.pack('>I', 0)
+    f, e = _frexp_exact(v)
+    M = f * (1 << 15)
+    assert M.denominator == 1 and -32768 <= e <= 32767, 'not representable in code 50: %r' % v
+    return struct.pack('>HH', e & 0xFFFF, int(M) & 0xFFFF)
+
+
+def dec50(by):
+    e, m = struct.unpack('>hh', by)
+    return Fraction(m, 1 << 15) * Fraction(2) ** e
+
+
+def enc70(v):
+    """32 bit fixed point, binary point in the middle."""
+    i = Fraction(v) * 65536
+    assert i.denominator == 1 and -2 ** 31 <= i < 2 ** 31
+    return struct.pack('>i', int(i))
+
+
+def dec70(by):
+    return Fraction(struct.unpack('>i', by)[0], 65536)
+
+
+RC_SIZE = {49: 2, 50: 4, 56: 1, 66: 1, 68: 4, 70: 4, 73: 4, 77: 1, 79: 2}
+_INT_FMT = {56: '>b', 66: '>B', 73: '>i', 77: '>B', 79: '>h'}
+
+
+def encode(code, v):
+    if code in _INT_FMT:
+        assert Fraction(v).denominator == 1, 'code %d holds integers, not %r' % (code, v)
+        return struct.pack(_INT_FMT[code], int(v))
+    return {49: enc49, 50: enc50, 68: enc68, 70: enc70}[code](v)
+
+
+def decode(code, by):
+    if code in _INT_FMT:
+        return Fraction(struct.unpack(_INT_FMT[code], by)[0])
+    return {49: dec49, 50: dec50, 68: dec68, 70: dec70}[code](by)
+
+
+def frame_value(code, k):
+    """k-th position-coded value of a code, exactly representable, sign alternating."""
+    sign = -1 if k % 3 == 2 else 1
+    k = k % 180
+    if code in (49, 50):
+        v = Fraction(2 * k + 1, 2)
+    elif code == 68:
+        v = Fraction(4 * k + 1, 4)
+    elif code == 70:
+        v = Fraction(16 * k + 3, 16)
+    elif code == 56:
+        return ((k * 7) % 256) - 128
+    elif code in (66, 77):
+        return (k * 7 + 1) % 256
+    elif code == 73:
+        return sign * (k * 65537 + 5)
+    elif code == 79:
+        return sign * (k * 129 + 3)
+    else:
+        raise ValueError(code)
+    return sign * v
+
+
+# =================================================================================================
+# Layer 2: logical record bodies
+# =================================================================================================
+def lr_header(lr_type, attr=0):
+    return bytes([lr_type, attr])
+
+
+def _fixed(b, n):
+    assert len(b) <= n, (b, n)
+    return b.ljust(n)
+
+
+def file_head_tail(lr_type, file_name=b'RUNOne.S01', service_sub=b'SUBLEV', version=b'VERS 1.0', date=b'78/03/15',
+                   max_pr_len=b' 1024', file_type=b'LO', other_name=b''):
+    """File header (128) / trailer (129), 58 bytes (LIS-79 3.3.1.3 / 3.3.1.4)."""
+    by = lr_header(lr_type) + _fixed(file_name, 10) + b'  ' + _fixed(service_sub, 6) + _fixed(version, 8) + \
+        _fixed(date, 8) + b' ' + _fixed(max_pr_len, 5) + b'  ' + _fixed(file_type, 2) + b'  ' + _fixed(other_name, 10)
+    assert len(by) == 58
+    return by
+
+
+def reel_tape_head_tail(lr_type, service=b'SERVCE', date=b'79/06/15', origin=b'ORGN', name=b'REELNAME', cont=b'01',
+                        other_name=b'', comments=b'comments'):
+    """Reel (132/133) and tape (130/131) header / trailer, 128 bytes (LIS-79 3.3.1.1 / 3.3.1.2)."""
+    by = lr_header(lr_type) + _fixed(service, 6) + b' ' * 6 + _fixed(date, 8) + b'  ' + _fixed(origin, 4) + b'  ' + \
+        _fixed(name, 8) + b'  ' + _fixed(cont, 2) + b'  ' + _fixed(other_name, 8) + b'  ' + _fixed(comments, 74)
+    assert len(by) == 128
+    return by
+
+
+def component_block(cb_type, rep_code, category, mnem, units, value_bytes):
+    """12 byte preamble (type, rep code, size, category, mnemonic, units) + value (LIS-79 3.3.2)."""
+    assert len(mnem) == 4 and len(units) == 4 and len(value_bytes) < 256
+    return bytes([cb_type, rep_code, len(value_bytes), category]) + mnem + units + value_bytes
+
+
+def cell_bytes(v):
+    """(rep code, value bytes) for a table cell value: bytes -> 65; int -> smallest of 66/79/73; float -> 68."""
+    if isinstance(v, bytes):
+        return 65, v
+    if isinstance(v, bool):
+        raise TypeError
+    if isinstance(v, int):
+        if 0 <= v <= 255:
+            return 66, struct.pack('>B', v)
+        if -32768 <= v <= 32767:
+            return 79, struct.pack('>h', v)
+        return 73, struct.pack('>i', v)
+    return 68, enc68(v)
+
+
+def table_record(lr_type, name, columns, rows):
+    """Table record (types 32, 34, 39): a type 73 block naming the table, then per row a type 0 block (first column)
+    and type 69 blocks.  rows: list of lists of cell; cell = value or (value, units)."""
+    by = lr_header(lr_type) + component_block(73, 65, 0, b'TYPE', b'    ', name)
+    for row in rows:
+        for c, cell in enumerate(row):
+            v, u = cell if isinstance(cell, tuple) else (cell, b'    ')
+            rc, vb = cell_bytes(v)
+            by += component_block(0 if c == 0 else 69, rc, 0, columns[c], u, vb)
+    return by
+
+
+def entry_block(eb_type, rep_code, value_bytes):
+    return bytes([eb_type, len(value_bytes), rep_code]) + value_bytes
+
+
+def dsb(mnem, units, size, samples, rep_code, service_id=b'SERVID', service_order=b'ORDER   ', api=45310011, file_number=1):
+    """Datum specification block, 40 bytes (LIS-79 3.3.2.4, sub-type 0)."""
+    by = _fixed(mnem, 4) + _fixed(service_id, 6) + _fixed(service_order, 8) + _fixed(units, 4) + \
+        struct.pack('>IhH', api, file_number, size) + b'\0' * 3 + bytes([samples, rep_code]) + b'\0' * 5
+    assert len(by) == 40
+    return by
+
+
+def dfsr(entry_blocks, dsbs):
+    """Data format specification record (type 64): entry blocks ending with a terminator (type 0) sized to make the
+    entry block section even, then datum specification blocks.  entry_blocks: list of (type, rep_code, value_bytes)."""
+    by = b''
+    for t, rc, vb in entry_blocks:
+        by += entry_block(t, rc, vb)
+    if (len(by) + 3) % 2:
+        by += entry_block(0, 66, b'\x00')
+    else:
+        by += entry_block(0, 66, b'')
+    return lr_header(64) + by + b''.join(dsbs)
+
+
+def data_record(lr_type, frames, indirect_x=None):
+    """Type 0 / 1 data record: optional leading depth (recording mode 1) then whole frames."""
+    return lr_header(lr_type) + (indirect_x or b'') + b''.join(frames)
